@@ -64,6 +64,16 @@ Definition mx_reader (k : kind) (rep : bool) (field : Z) (data : bytes) (init : 
     let '(st, v) := dec_single k field st0 (match init with v :: _ => v | [] => VInt 0 end) in
     (pf st, pw st, Z.of_nat (length (buf st)), err st, [v]).
 
+(* the same reader inside the callback of Message/PresentMessage (wrap 0,1: under Loop) or RepeatedMessage (wrap 2) on field 9 *)
+Definition mx_nested_reader (k : kind) (rep : bool) (field : Z) (outer : bytes) (init : list val) (wrap : Z) :=
+  let st0 := next_field 0 {| pf := 0; pw := 0; buf := outer; err := None |} in
+  let F := S (S (S (length outer))) in
+  let fn := fun c (vs : list val) =>
+              if rep then dec_repeated F k field c vs
+              else let '(c', v) := dec_single k field c (match vs with v :: _ => v | [] => VInt 0 end) in (c', [v]) in
+  let '(st, vs) := if wrap =? 2 then dec_repeated_message F 9 fn st0 init else dec_message F 9 fn st0 init in
+  (pf st, Z.of_nat (length (buf st)), err st, vs).
+
 Definition mx_writer_enum (num : Z) (vs : list val) : result bytes := enc_repeated_enum num (map as_int vs) [].
 
 (* picoconv on (seconds, nanos) *)
@@ -74,7 +84,7 @@ Definition mx_enc_duration (d : Z) := enc_duration 1 d [].
 Definition mx_enc_timestamp (sec nsec : Z) := enc_timestamp 1 sec nsec [].
 
 Extraction "model.ml"
-  mx_writer mx_writer_enum mx_reader mx_dur_join mx_dur_split mx_time_unix mx_enc_duration mx_enc_timestamp
+  mx_writer mx_writer_enum mx_reader mx_nested_reader mx_dur_join mx_dur_split mx_time_unix mx_enc_duration mx_enc_timestamp
   Z.add Z.mul Z.sub Z.opp Z.of_nat Z.to_nat Z.div_eucl Z.eqb Z.ltb Z.compare
   mx_bitset_run mx_fn_string
   mx_gen_all mx_tdec_applies mx_tdec_applies_at mx_rt_applies mx_rt_applies_at mx_rt_ok mx_msg_ok mx_marshal mx_unmarshal mx_zero mx_norm mx_ref_encode mx_ref_decode mx_wf_input
